@@ -8,6 +8,8 @@
 static rfbScreenInfoPtr scr;
 static int W, H, BPP;
 static rfbClientPtr cls[MAXCL];
+static int hook_k = -1; static rfbCursorPtr hook_cur;   /* see disp_hook */
+static rfbCursorPtr default_cursor;   /* the library's built-in cursor every new screen starts with */
 static int peers[MAXCL];
 static vs_buf bufs[MAXCL];
 static rfbCursorPtr pending;
@@ -52,6 +54,13 @@ static void drop_clients(void) {
   if (scr) vs_pump(scr, 0, NULL, NULL);
   for (i = 0; i < MAXCL; i++) { cls[i] = NULL; free(bufs[i].p); memset(&bufs[i], 0, sizeof bufs[i]); free(pics[i]); pics[i] = NULL; gone[i] = 0; }
   session_mode = 0; fail_fd = -1; fail_budget = -1;
+  hook_k = -1; if (hook_cur) { rfbFreeCursor(hook_cur); hook_cur = NULL; }
+}
+
+/* the application replaces the cursor from its displayHook, i.e. at the head of
+ * rfbSendFramebufferUpdate of client hook_k (one shot) */
+static void disp_hook(rfbClientPtr cl) {
+  if (hook_k >= 0 && cl == cls[hook_k]) { rfbCursorPtr c = hook_cur; hook_k = -1; hook_cur = NULL; rfbSetCursor(scr, c); }
 }
 
 static void gone_hook(rfbClientPtr cl) {
@@ -128,7 +137,7 @@ static void drop_screen(void) {
   drop_clients();
   if (scr) {
     char *fb = scr->frameBuffer;
-    if (pending && pending != scr->cursor) { rfbFreeCursor(pending); }
+    if (pending) { rfbFreeCursor(pending); }
     pending = NULL;
     rfbScreenCleanup(scr); free(fb); scr = NULL;
   }
@@ -193,6 +202,7 @@ int main(void) {
       if (!scr) { printf("screen failed\n"); continue; }
       scr->serverFormat.redMax = a[3]; scr->serverFormat.greenMax = a[4]; scr->serverFormat.blueMax = a[5];
       scr->serverFormat.redShift = a[6]; scr->serverFormat.greenShift = a[7]; scr->serverFormat.blueShift = a[8];
+      default_cursor = scr->cursor;
       scr->cursor = NULL;
       printf("screen ok\n");
     }
@@ -202,7 +212,7 @@ int main(void) {
       printf("fb ok\n");
     }
     else if (!strcmp(op, "cur")) {
-      if (pending && pending != scr->cursor) rfbFreeCursor(pending);
+      if (pending) rfbFreeCursor(pending);      /* never installed; an installed cursor belongs to the library */
       pending = (rfbCursorPtr)calloc(1, sizeof(rfbCursor));
       pending->cleanup = TRUE;
       pending->width = a[0]; pending->height = a[1]; pending->xhot = a[2]; pending->yhot = a[3];
@@ -232,7 +242,7 @@ int main(void) {
       int k; if (strcmp(rest, "-")) { pending->alphaSource = hexbytes(rest, &k); pending->cleanupRichSource = TRUE; }
       printf("alpha ok\n");
     }
-    else if (!strcmp(op, "setcur")) { rfbSetCursor(scr, pending); if (session_mode) pump_obs("setcur"); else printf("setcur ok\n"); }
+    else if (!strcmp(op, "setcur")) { rfbSetCursor(scr, pending); pending = NULL; if (session_mode) pump_obs("setcur"); else printf("setcur ok\n"); }
     else if (!strcmp(op, "nocur")) { rfbSetCursor(scr, NULL); pending = NULL; if (session_mode) pump_obs("nocur"); else printf("nocur ok\n"); }
     else if (!strcmp(op, "pos")) { rfbClientPtr cl = need_client(0); cl->cursorX = a[0]; cl->cursorY = a[1]; printf("pos ok\n"); }
     else if (!strcmp(op, "show")) { rfbShowCursor(need_client(0)); dump("show", scr->frameBuffer); }
@@ -299,6 +309,23 @@ int main(void) {
       for (y = a[1]; y < a[3]; y++) for (x = a[0]; x < a[2]; x++) setpix(scr->frameBuffer, x, y, v);
       rfbMarkRectAsModified(scr, a[0], a[1], a[2], a[3]);
       pump_obs("fill");
+    }
+    else if (!strcmp(op, "defcur")) {
+      /* back to the cursor the screen was created with (the library's default cursor) */
+      rfbCursorPtr c = default_cursor; int i, rb = (c->width + 7) / 8;
+      rfbSetCursor(scr, c);
+      printf("defcur %d %d %d %d %d %d %d %d %d %d ", c->width, c->height, c->xhot, c->yhot, c->foreRed, c->foreGreen, c->foreBlue,
+             c->backRed, c->backGreen, c->backBlue);
+      for (i = 0; i < rb * c->height; i++) printf("%02x", c->source[i]);
+      putchar(' ');
+      for (i = 0; i < rb * c->height; i++) printf("%02x", c->mask[i]);
+      putchar('\n');
+    }
+    else if (!strcmp(op, "hookcur")) {
+      if (hook_cur) rfbFreeCursor(hook_cur);
+      hook_k = a[0]; hook_cur = pending; pending = NULL;
+      scr->displayHook = disp_hook;
+      printf("hookcur ok\n");
     }
     else if (!strcmp(op, "failwrite")) {
       int k = a[0];
